@@ -1057,6 +1057,81 @@ def rule_py_eof(out):
                   "_fill_buffer does not raise when it obtained fewer than min_count bytes")
 
 
+def rule_py_optional_identity(out):
+    rid = "PN3"
+    out.rule(rid, "_ndjson.py / _binary.py serializers and converters: a parameter annotated Optional[...] is tested for absence with `is None` / `is not None`, never by truthiness "
+                  "(0, '', False, [] and {} are present values)", 2)
+    n = 0
+    for fname in ("_ndjson.py", "_binary.py"):
+        tree, rel = parse_py(out, fname)
+        for cname, cls in classes(tree).items():
+            if not (cname.endswith("Serializer") or cname.endswith("Converter")):
+                continue  # values on the wire pass through serializers and converters; configuration parameters are not values
+            for mname, fn in methods(cls).items():
+                opt = [a.arg for a in fn.args.args if a.annotation is not None and "Optional[" in ast.unparse(a.annotation)]
+                for prm in opt:
+                    tests = []
+                    for x in ast.walk(fn):
+                        if isinstance(x, (ast.If, ast.While, ast.IfExp)):
+                            tests.append(x.test)
+                        elif isinstance(x, ast.Assert):
+                            tests.append(x.test)
+                    bad = None
+                    used = False
+
+                    def truthy(t):
+                        """sub-expressions of a condition that are evaluated for their truth value"""
+                        if isinstance(t, ast.BoolOp):
+                            return [y for v in t.values for y in truthy(v)]
+                        if isinstance(t, ast.UnaryOp) and isinstance(t.op, ast.Not):
+                            return truthy(t.operand)
+                        return [t]
+                    for t in tests:
+                        for leaf in truthy(t):
+                            if isinstance(leaf, ast.Name) and leaf.id == prm:
+                                bad = leaf
+                            if isinstance(leaf, ast.Compare) and isinstance(leaf.left, ast.Name) and leaf.left.id == prm:
+                                used = True
+                    if bad is None and not used:
+                        continue
+                    n += 1
+                    out.check(bad is None, rid, "%s.%s/%s" % (cname, mname, prm), pos(rel, bad if bad is not None else fn), "absence is tested with `is None`",
+                              "`%s` (Optional) is tested by truthiness: a present value that is falsy — 0, an empty string, False, an empty list or map — is treated as absent "
+                              "(written as null / skipped)" % prm)
+    if n == 0:
+        out.undecided(rid, "anchor/Optional parameters", "-", "no test of an Optional[...] parameter found in the Python runtimes")
+
+
+def rule_py_no_swallowed_eof(out):
+    rid = "PE3"
+    out.rule(rid, "_binary.py: no `except` handler that can catch EOFError (EOFError, Exception, BaseException, bare) ends without raising: a truncated stream "
+                  "is never turned into a normal result", 1)
+    tree, rel = parse_py(out, "_binary.py")
+    nfn = 0
+    for node in ast.walk(tree):
+        if not isinstance(node, (ast.FunctionDef, ast.AsyncFunctionDef)):
+            continue
+        nfn += 1
+        for h in [x for x in ast.walk(node) if isinstance(x, ast.ExceptHandler)]:
+            names = []
+            if h.type is None:
+                names = ["<bare>"]
+            elif isinstance(h.type, ast.Tuple):
+                names = [ast.unparse(e) for e in h.type.elts]
+            else:
+                names = [ast.unparse(h.type)]
+            catches = any(n in ("<bare>", "EOFError", "Exception", "BaseException") for n in names)
+            if not catches:
+                continue
+            raises = any(isinstance(x, ast.Raise) for st in h.body for x in ast.walk(st))
+            out.check(raises, rid, "%s/except %s" % (node.name, ",".join(names)), pos(rel, h), "the handler raises",
+                      "%s catches %s and continues: reaching the end of the input inside it is reported as a normal result instead of EOFError" % (node.name, ",".join(names)))
+    if nfn >= 40:
+        out.ok(rid, "anchor/functions scanned", rel, "%d functions of the Python binary runtime scanned" % nfn)
+    else:
+        out.undecided(rid, "anchor/functions scanned", rel, "only %d functions found" % nfn)
+
+
 # ----------------------------------------------------------------------------------
 # PS1: a stream block count of 0 is the terminator: block writers never emit it.
 # PA1: values handed out by readers do not alias the reusable input buffer.
@@ -1554,11 +1629,11 @@ def rule_py_refill_scope(out):
         out.undecided(rid, "CodedInputStream/buffer reads", rel, "no indexed buffer read found")
 
 RULES = {
-    "C02": [rule_json_kinds, rule_ndjson_sentinel, rule_union_dispatch],
-    "C03": [rule_link, rule_py_wire_table, rule_py_capacity, rule_py_no_alias, rule_py_stream_blocks],
+    "C02": [rule_json_kinds, rule_ndjson_sentinel, rule_union_dispatch, rule_py_optional_identity],
+    "C03": [rule_link, rule_py_wire_table, rule_py_capacity, rule_py_no_alias, rule_py_stream_blocks, rule_py_optional_identity],
     "C08": [rule_link],
     "C15": [rule_py_headers, rule_ndjson_key_order],
-    "C16": [rule_py_eof, rule_py_refill_scope],
+    "C16": [rule_py_eof, rule_py_refill_scope, rule_py_no_swallowed_eof],
     "C17": [rule_py_stream_blocks, rule_py_no_alias],
     "C04": [rule_py_headers, rule_py_write_order, rule_ndjson_key_order],
     "C01": [rule_py_wire_table, rule_py_stream_blocks, rule_py_write_order],
